@@ -518,6 +518,10 @@ func (s *simRun) runProg(p int, src, pt key.TargetID) {
 			for _, t := range s.resolve(c.sel, src, pt) {
 				e.RemoveModifier(t, simMods[c.a])
 			}
+		case 'B': // a shield of flat strength a on each selected unit (hits on it are absorbed in part: total damage and HP damage differ)
+			for _, t := range s.resolve(c.sel, src, pt) {
+				e.AddShield("verif-shield", info.Shield{Source: src, Target: t, BaseShield: info.ShieldMap{}, ShieldValue: float64(c.a)})
+			}
 		case 'S':
 			e.ModifySP(info.ModifySP{Key: "verif-sp", Source: src, Amount: c.a})
 		case 'Z':
